@@ -52,6 +52,18 @@ func OrderHistories(tier string) []OrderHistory {
 		{"two-auctions-settling-in-one-block", cfg, []Op{fixed, batch(0), allow(0, "bid1", "10"), allow(0, "bid2", "10"), allow(1, "bid1", "10"), allow(1, "bid2", "10"), allow(1, "bid3", "10"),
 			fb(0, "bid1", "bcoin", "3"), fb(0, "bid2", "acoin", "2"), many(1, "bid1", "2", "3"), worth(1, "bid2", "2", "5"), many(1, "bid3", "1", "4"), blk(2)}},
 	}
+	fixedEarly := Op{Kind: "create_fixed", Signer: "auc1", StartPrice: "1", Sell: "10acoin", PayDenom: "bcoin", StartK: 0, EndK: 2, Sched: sched(3, 4)}
+	batchLate := Op{Kind: "create_batch", Signer: "auc1", StartPrice: "1", MinPrice: "0.5", Sell: "10acoin", PayDenom: "bcoin", StartK: 0, EndK: 3, MaxExt: 0, Rate: "0.5"}
+	waiting := Op{Kind: "create_fixed", Signer: "auc2", StartPrice: "1", Sell: "5acoin", PayDenom: "bcoin", StartK: 3, EndK: 5}
+	hs = append(hs,
+		// auctions in DIFFERENT statuses acting in the same block (one releases an instalment, one settles)
+		OrderHistory{"release-and-settlement-in-one-block", cfg, []Op{fixedEarly, batchLate, allow(0, "bid1", "10"), allow(0, "bid2", "10"), allow(1, "bid1", "10"), allow(1, "bid2", "10"),
+			fb(0, "bid1", "bcoin", "3"), fb(0, "bid2", "acoin", "2"), many(1, "bid1", "2", "3"), worth(1, "bid2", "2", "5"), blk(2), blk(3), blk(4)}},
+		OrderHistory{"opening-release-and-settlement-in-one-block", cfg, []Op{fixedEarly, batchLate, waiting, allow(0, "bid1", "10"), allow(1, "bid1", "10"), allow(1, "bid2", "10"),
+			fb(0, "bid1", "bcoin", "3"), many(1, "bid1", "2", "3"), worth(1, "bid2", "2", "5"), blk(2), blk(3), blk(5)}},
+		OrderHistory{"cancelled-finished-vesting-and-open-auctions-in-one-block", cfg, []Op{waiting, fixedEarly, batchLate, {Kind: "cancel", Signer: "auc2", AID: 0}, allow(1, "bid1", "10"), allow(2, "bid1", "10"),
+			fb(1, "bid1", "bcoin", "3"), many(2, "bid1", "2", "3"), blk(2), blk(3), blk(4)}},
+	)
 	if tier == "thorough" {
 		hs = append(hs,
 			OrderHistory{"fixed-4-bidders", cfg, []Op{fixed, allow(0, "bid1", "10"), allow(0, "bid2", "10"), allow(0, "bid3", "10"), allow(0, "out1", "10"),
